@@ -1,4 +1,5 @@
 import BezierVerif.Model.GeometricInst
+import BezierVerif.Model.GeometricTrace
 import Driver.Ops.Common
 
 /-! # Driver/Ops/Geometric — the intersection pipeline with the concrete primitives (K := Rat)
@@ -27,6 +28,10 @@ def mkConsts (bits : Nat) (c : List Q) : Option (PipelineConsts Q) :=
            locateRounds := locRounds.floor.toNat, locateCapSq := locCap * locCap, rnd := roundBits bits }
   | _ => none
 
+/-- numeric code of an error in a value position: -1 unsupportedDegree, -2 notImplemented, -3 valueError, -4 runtimeError, -5 recursion, -6 badInput -/
+def errCode : Err → Q
+  | .unsupportedDegree => -1 | .notImplemented => -2 | .valueError => -3 | .runtimeError => -4 | .recursion => -5 | .badInput => -6
+
 def ofPairs (l : List (Q × Q)) : V := .list (l.map (fun p => .list [.num p.1, .num p.2]))
 
 def handle (op : String) (args : List V) : Option String :=
@@ -37,6 +42,19 @@ def handle (op : String) (args : List V) : Option String :=
     pure (match allIntersections (concretePrims (py ≠ 0) C) C.geo n1 n2 with
       | .ok (pts, flag) => okV (.list [ofPairs pts, ofBool flag])
       | .error e => errV e)
+  | "all_intersections_trace", [py, bits, consts, n1, n2] => do
+    -- reply: [result-or-[], [round, …]] with round = [[ [kind1,start1,stop1,kind2,start2,stop2], … ], accAfter | []]
+    let py ← py.toNat?; let bits ← bits.toNat?; let c ← consts.toRow?; let n1 ← n1.toMat?; let n2 ← n2.toMat?
+    let C ← mkConsts bits c
+    let (r, log) := allIntersectionsTrace (concretePrims (py ≠ 0) C) C.geo n1 n2
+    let candV (c : Cand Q) : List V := [.num (if c.isLin then 1 else 0), .num c.sub.start, .num c.sub.stop]
+    let roundV (e : RoundLog Q) : V :=
+      .list [.list (e.cands.map (fun pr => .list (candV pr.1 ++ candV pr.2))),
+             match e.accAfter with | some a => ofPairs a | none => .list [.list []]]
+    let logV : V := .list (log.map roundV)
+    pure (match r with
+      | .ok (pts, flag) => okV (.list [.list [ofPairs pts, ofBool flag], logV])
+      | .error e => okV (.list [.list [.num (errCode e)], logV]))
   | "self_intersections", [py, bits, consts, fuel, nodes] => do
     let py ← py.toNat?; let bits ← bits.toNat?; let c ← consts.toRow?; let fuel ← fuel.toNat?; let n ← nodes.toMat?
     let C ← mkConsts bits c
